@@ -61,6 +61,9 @@ fn full_axes(tier: &Tier) -> Vec<(String, RunCfg)> {
             c
         }),
     ]);
+    if *tier == Tier::Quick {
+        v.extend(named(vec![("sync activity(10,.5)", act_cfg(10.0, 0.5))]));
+    }
     if *tier == Tier::Thorough {
         v.extend(named(vec![
             ("sync hints=None", hint_cfg(Hint::None)),
@@ -754,6 +757,9 @@ fn f7(tier: &Tier) -> Vec<(Box<dyn Family>, u64)> {
             Box::new(Grid::f1().with_root(RootMenu::List(vec![vec![3, 0, 0], vec![3, 3, 0], vec![3, 3, 3], vec![1, 0, 2]]))),
             if q { 16 } else { 1 },
         ),
+        // the interference families (constrains between transitive packages, back edges)
+        (Box::new(F8b), 1),
+        (Box::new(F9 { wide: false }), if q { 997 } else { 31 }),
     ]
 }
 
@@ -785,6 +791,10 @@ pub fn run_e2(ctx: &Ctx) -> i32 {
         vec![
             AsyncPlan { hint_mask: None, mask: K_CANDS | K_DEPS, pairs: false, hint: None, complete_cap: 3000, dev_bound: 2, dev_cap: 3000 },
             AsyncPlan { hint_mask: None, mask: K_CANDS | K_DEPS, pairs: false, hint: Some(Hint::All), complete_cap: 1000, dev_bound: 1, dev_cap: 1000 },
+            // two answers becoming ready inside one poll
+            AsyncPlan { hint_mask: None, mask: K_CANDS | K_DEPS, pairs: true, hint: None, complete_cap: 300, dev_bound: 1, dev_cap: 300 },
+            // hints on every second package only
+            AsyncPlan { hint_mask: Some(0b10101), mask: K_CANDS | K_DEPS, pairs: false, hint: None, complete_cap: 300, dev_bound: 1, dev_cap: 300 },
         ]
     } else {
         vec![
